@@ -8,7 +8,12 @@ made the way the case says (via class / instance / subclass, coroutines driven b
 through a script of next/send/throw/close) and the outcome is canonicalised:
 exception class code, identity of result / exception object (`is`), journal of the body with the
 identity of every bound argument (`is` against the objects of the call), remaining length of
-one-shot iterators.  Never hangs: no loops over user data, generators are stepped a bounded number of times."""
+one-shot iterators.  Never hangs: no loops over user data, generators are stepped a bounded number of times.
+
+Input dimensions that live only here (the model sees their consequences, not the mechanism): the text of the function (comments,
+docstrings, nested decorated definitions, '@' after the def line: TEXT_LINES), the function as one of two products of the same def
+statement with other annotation objects (case['sibling']: factory_text), bodies that change an argument container in place and return
+that very object under the parameter's own annotation object (case['mutret'], case['ret_same']), parameter names (p_names.PNAMES)."""
 import sys, json, os, inspect, re, importlib.util, linecache, operator, functools, types, collections, collections.abc
 import universe as U
 import excs
@@ -94,6 +99,15 @@ TEXT_LINES = {
     'doc_self': ('doc', 'Returns self (or cls), see return below.'),
     'comment_classmethod': ('body', '# unlike a @classmethod or a lambda this keeps state'),
     'doc_return': ('doc', 'return None; raise nothing; def nothing.'),
+    # decorator-looking lines and '@' characters AFTER the def line: in the body (a nested decorated function / class, the matrix
+    # multiplication operator, a multi-line string) and in the docstring (lines starting with '@tag').  A list is a block of lines.
+    'body_nested_deco': ('body', ['@quiet', 'def _pv_inner():', '    return None']),
+    'body_nested_deco_call': ('body', ['@functools.lru_cache(maxsize=None)', 'def _pv_inner(_v=None):', '    return _v']),
+    'body_nested_class': ('body', ['class _PvLocal:', '    @property', '    def v(self):', '        return 1']),
+    'body_matmul': ('body', '_pv_m = None if True else (_pv_body @ _pv_body)'),
+    'string_at_lines': ('body', ['_pv_s = \'\'\'', '@deprecated since 1.0', '@see the other helper', '\'\'\'']),
+    'doc_at_lines': ('doc', ['Summary line.', '', '@deprecated since 1.0', '@see the other helper', '']),
+    'doc_epydoc': ('doc', ['Summary line.', '', '@param a: the first value', '@param b: the second value', '@return: something', '']),
     'none': (None, None),
 }
 
@@ -119,9 +133,16 @@ def function_text(case, indent):
     kw = 'async def' if case['async'] else 'def'
     lines.append(f'{ind}{kw} {name}({signature_text(case)}){ret}:')
     if where == 'doc':
-        lines.append(f'{ind}    """{line}"""')
+        if isinstance(line, list):      # a multi-line docstring; its lines are indented like the body
+            lines.append(f'{ind}    """{line[0]}')
+            lines.extend((f'{ind}    {l}' if l else '') for l in line[1:])
+            lines.append(f'{ind}    """')
+        else:
+            lines.append(f'{ind}    """{line}"""')
     if where == 'body':
-        lines.append(f'{ind}    {line}')
+        for l in (line if isinstance(line, list) else [line]):
+            # the inside of a triple-quoted string starts in column 0 (a line that BEGINS with '@')
+            lines.append(l if (text == 'string_at_lines' and not l.startswith('_pv_s')) else f'{ind}    {l}')
     if case['gen']:
         lines.append(f'{ind}    return (yield from _pv_gen(locals()))')
     else:
@@ -129,14 +150,33 @@ def function_text(case, indent):
     return '\n'.join(lines) + '\n'
 
 
+def factory_text(case):
+    """the target function as the product of a factory: ONE def statement evaluated twice, with different annotation (and
+    possibly default) objects - the sibling product is built before or after the one under test"""
+    sib = case['sibling']
+    ps = case['params']
+    formal = [f'A{i}' for i, p in enumerate(ps) if p['ann'] is not None] + [f'D{i}' for i, p in enumerate(ps) if p['default'] is not None]
+    if case['ret'] is not None:
+        formal.append('R')
+    own = ', '.join(formal)
+    other = ', '.join('S' + n for n in formal)
+    name = case['name']
+    text = f'def _pv_make({own}):\n' + function_text(case, 4) + f'    return {name}\n'
+    mk_own = f'{name} = _pv_make({own})\n'
+    mk_sib = f'_pv_sib = _pv_make({other})\n'
+    return text + (mk_sib + mk_own if sib.get('order', 'before') == 'before' else mk_own + mk_sib)
+
+
 def module_text(case):
-    head = 'from pv_w import quiet\n'
+    head = 'import functools\nfrom pv_w import quiet\n'
     style = case['style']
     if style == 'func':
         shadow = ''
         if case.get('shadow'):
             sig = '*args: int' if case['shadow']['star'] else 'a: int = 0, b: int = 0'
             shadow = ''.join('@' + d + '\n' for d in case['decos']) + f'def {case["name"]}({sig}) -> None:\n    return None\n_pv_shadow = {case["name"]}\n'
+        if case.get('sibling'):
+            return head + shadow + factory_text(case)
         return head + shadow + function_text(case, 0)
     body = function_text(case, 4)
     if style == 'property':
@@ -237,6 +277,16 @@ class Run:
             raise self.exc_obj
         self.journal.append(self.snap(loc))
         b = self.case['body']
+        mu = self.case.get('mutret')
+        if mu and b[0] == 'ret':
+            # the body changes the container it was given IN PLACE and hands that very object back
+            obj = loc.get(N.pname(mu['name']), self)
+            if obj is self:
+                return self.result_obj
+            mutate_in_place(obj, mu)
+            self.result_obj = obj
+            self.mutated = obj
+            return obj
         if b[0] == 'ret':
             return self.result_obj
         raise self.exc_obj
@@ -281,6 +331,20 @@ class Run:
             if v is o:
                 return k
         return -2
+
+
+def mutate_in_place(obj, mu):
+    """append / add / set one element; an object without the method is left alone (the call had no business reaching the body)"""
+    add = U.render_val(mu['add'])
+    try:
+        if isinstance(obj, dict):
+            obj[U.render_val(mu['key'])] = add
+        elif isinstance(obj, (set,)):
+            obj.add(add)
+        else:
+            obj.append(add)
+    except (AttributeError, TypeError):
+        pass
 
 
 LIST_ITER = type(iter([]))
@@ -344,6 +408,21 @@ def run_case(case):
                 r.iters[(4, p['name'])] = find_iters(d)
     if case['ret'] is not None:
         extra['R'] = rann(case['ret'])
+        same = [i for i, p in enumerate(case['params']) if p['name'] == case.get('ret_same') and p['ann'] == case['ret']]
+        if same:      # parameter and result are annotated with the very same annotation object
+            extra['R'] = extra[f'A{same[0]}']
+    sib = case.get('sibling')
+    if sib:
+        # the annotation / default objects of the sibling product of the same def statement
+        s_anns = {k: a for k, a in sib.get('anns', [])}
+        s_dfl = {k: d for k, d in sib.get('defaults', [])}
+        for i, p in enumerate(case['params']):
+            if p['ann'] is not None:
+                extra[f'SA{i}'] = rann(s_anns[p['name']]) if s_anns.get(p['name']) is not None else extra[f'A{i}']
+            if p['default'] is not None:
+                extra[f'SD{i}'] = U.render_val(s_dfl[p['name']]) if s_dfl.get(p['name']) is not None else extra[f'D{i}']
+        if case['ret'] is not None:
+            extra['SR'] = rann(sib['ret']) if sib.get('ret') is not None else extra['R']
     if case.get('prop_get_ret') is not None:
         extra['RG'] = U.render_ann(case['prop_get_ret'])
     reified = {}
@@ -354,7 +433,7 @@ def run_case(case):
     elif case['body'][0] == 'ret':
         r.result_obj = U.render_val(case['body'][1])
         reified['body'] = ['ret', U.reify_val(r.result_obj, case['body'][1])]
-        r.result_iters = find_iters(r.result_obj)
+        r.result_iters = find_iters(r.result_obj) if not case.get('mutret') else []
     else:
         import p_common_msgs
         r.exc_obj = excs.cls_of(case['body'][1])(p_common_msgs.EXC_MSGS[case.get('exc_msg', 0)])
@@ -405,11 +484,11 @@ def run_case(case):
         except BaseException as ex:
             return {'decoration': exc_code(ex), 'exc': type(ex).__name__ + ': ' + str(ex)[:150]}
     else:
-        if len(r.seen) != (2 if case.get('shadow') else 1):
+        if len(r.seen) != 1 + (1 if case.get('shadow') else 0) + (1 if case.get('sibling') else 0):
             return {'error': f'{len(r.seen)} functions reached the decorator'}
-        func_obj = r.seen[-1]
+        func_obj = r.seen[-2] if (case.get('sibling') and case['sibling'].get('order', 'before') != 'before') else r.seen[-1]
         try:
-            fnr = reify_fn(r.seen[-1], case, K, Sub)
+            fnr = reify_fn(func_obj, case, K, Sub)
         except Unrepresentable as ex:
             return {'skip': str(ex)}
     res['fn'] = fnr
@@ -506,6 +585,28 @@ def run_case(case):
                 out = stop.value
         return out
 
+    if case.get('sibling') and case['sibling'].get('call'):
+        # the sibling product is called first (same arguments, fresh objects); whatever it does says nothing about the call under test
+        saved = r.result_obj if hasattr(r, 'result_obj') else None
+        try:
+            out = mod._pv_sib(*[U.render_val(v) for v in case['args']], **{N.pname(k): U.render_val(v) for k, v in case['kwargs']})
+            if inspect.iscoroutine(out):
+                try:
+                    out.send(None)
+                except StopIteration:
+                    pass
+                out.close()
+        except BaseException:      # noqa
+            pass
+        r.journal.clear()
+        if hasattr(r, 'result_obj'):
+            r.result_obj = saved
+        r.mutated = None
+        try:      # default objects shared by the two products may have been changed by that call: the function is reified as it is now
+            res['fn'] = reify_fn(func_obj, case, K, Sub)
+        except Unrepresentable as ex:
+            return {'skip': str(ex)}
+
     hist = case.get('history')
     if hist:
         # earlier calls on the SAME decorated callable, then a default object is mutated in place; the function is reified
@@ -571,6 +672,13 @@ def run_case(case):
         res.update(do_call())
     res['len_calls'] = r.len_calls[0]
     res['journal'] = r.journal
+    if case.get('mutret') and getattr(r, 'mutated', None) is not None:
+        # the product of the body is the object it was really given, as it is after the change (if the call protocol handed the body
+        # another object than the case intended - a known finding - the model and the oracle are told what the body really produced)
+        try:
+            reified['body'] = ['ret', U.reify_val(r.mutated)]
+        except Exception:      # noqa
+            return {'skip': 'the object the body changed and returned is outside the universe'}
     if op_results is not None:
         reified['ops'] = [['send', r.op_reified[k]] if (o[0] == 'send' and k in r.op_reified) else o for k, o in enumerate(case['ops'][:40])]
         res['ops'] = op_results
